@@ -5,6 +5,7 @@ package main
 import (
 	"fmt"
 	"go/token"
+	"go/types"
 	"sort"
 	"strings"
 
@@ -65,6 +66,7 @@ func checkC08(c *Ctx) {
 	c08Finished(c)
 	c08ClientAuth(c)
 	c08Transcript(c)
+	lostReceiverStores(c, "G-C08-transcript", "gmtls")
 }
 
 func c08Chain(c *Ctx) {
@@ -1150,4 +1152,73 @@ func c08PreMaster(c *Ctx) {
 		}
 	}
 	completeCopies(c, "G-COPY-complete", "gmtls", func(f *ssa.Function) bool { return f.Name() == "marshal" || f.Name() == "unmarshal" })
+}
+
+// lostReceiverStores: a method with a by-value struct receiver that assigns to a field of that receiver writes into its
+// private copy; unless the method itself reads the field afterwards the assignment has no effect at all. In gmtls this
+// is how a transcript can silently stop accumulating (finishedHash.Write appending to h.buffer): the handshake buffer
+// that CertificateVerify signs stays empty on both sides, so the proof of possession covers no session data.
+func lostReceiverStores(c *Ctx, rule, pkg string) {
+	n := 0
+	for f := range c.P.AllFns {
+		if !inRepo(f) || f.Pkg == nil || f.Pkg.Pkg.Name() != pkg || f.Blocks == nil || f.Signature.Recv() == nil || len(f.Params) == 0 {
+			continue
+		}
+		if _, isPtr := f.Signature.Recv().Type().(*types.Pointer); isPtr {
+			continue
+		}
+		if _, isStruct := f.Signature.Recv().Type().Underlying().(*types.Struct); !isStruct {
+			continue
+		}
+		n++
+		// the spilled copy of the receiver
+		var spill *ssa.Alloc
+		for _, u := range *f.Params[0].Referrers() {
+			if st, ok := u.(*ssa.Store); ok && st.Val == ssa.Value(f.Params[0]) {
+				if al, ok := st.Addr.(*ssa.Alloc); ok {
+					spill = al
+				}
+			}
+		}
+		if spill == nil {
+			continue
+		}
+		for _, u := range *spill.Referrers() {
+			fa, ok := u.(*ssa.FieldAddr)
+			if !ok {
+				continue
+			}
+			for _, u2 := range *fa.Referrers() {
+				st, ok := u2.(*ssa.Store)
+				if !ok || st.Addr != ssa.Value(fa) {
+					continue
+				}
+				// is the field (or the whole copy) read after the store?
+				used := false
+				for _, u3 := range *spill.Referrers() {
+					switch x := u3.(type) {
+					case *ssa.FieldAddr:
+						if x.Field != fa.Field {
+							continue
+						}
+						for _, u4 := range *x.Referrers() {
+							if ld, ok := u4.(*ssa.UnOp); ok && ld.Op == token.MUL && reachesAvoidingAll(st, ld, nil) {
+								used = true
+							}
+						}
+					case *ssa.UnOp:
+						if x.Op == token.MUL && reachesAvoidingAll(st, x, nil) {
+							used = true
+						}
+					case *ssa.Call, *ssa.MakeInterface, *ssa.MakeClosure:
+						used = true // the copy escapes
+					}
+				}
+				c.Check(used, rule, fname(f), "assignment to "+fieldName(fa.X.Type(), fa.Field)+" of the by-value receiver is not lost", "", "the method has a value receiver and assigns to its field "+fieldName(fa.X.Type(), fa.Field)+" without reading it again: the assignment only changes a private copy and is lost when the method returns (a transcript buffer appended to this way never grows)", st.Pos())
+			}
+		}
+	}
+	if n == 0 {
+		c.Undecided(rule, pkg, "methods with value receivers", "none found", token.NoPos)
+	}
 }
